@@ -386,6 +386,307 @@ theorem cv_completion_verified (c : Env) (cv : Curve) (st : EcSt) (m : Bytes)
       · rename_i hv; subst hres; exact ⟨_, _, _, _, rfl, hv⟩
       · subst hres; simp at h
 
+/-! ## … and this holds for EVERY exchange of a connection, behind `Transport.run()`'s gate -/
+/-- the effects of the engine step that `Transport.run()` performs for one packet (empty when
+    the packet does not reach the engine) -/
+def stepEff (c : Env) (en : Engine) (s : Sess) (pkt : Nat × Bytes × Nat) : List Effect :=
+  if s.dead.isSome then []
+  else if s.expected = [] then []
+  else if pkt.1 ∉ s.expected then []
+  else if pkt.1 < 30 ∨ pkt.1 > 41 then []
+  else (en.next c s.st pkt.1 pkt.2.1 pkt.2.2).eff
+
+/-- the per-packet effect lists of a whole exchange -/
+def stepEffs (c : Env) (en : Engine) : Sess → List (Nat × Bytes × Nat) → List (List Effect)
+  | _, [] => []
+  | s, p :: ps => stepEff c en s p :: stepEffs c en (Sess.feed c en s p) ps
+
+/-- what a client may be waiting for while a group exchange is in progress -/
+def ClientExpect (s : Sess) : Prop := ∀ t ∈ s.expected, t = 31 ∨ t = 33 ∨ t = 21
+
+private theorem mapRes_eff {α β : Type} (f : α → β) (r : Res α) : (mapRes f r).eff = r.eff := rfl
+
+private theorem gexRequest_no_activate (c : Env) (st : GexSt) (m : Bytes) :
+    Effect.activate ∉ (gexRequest c st m).eff := by
+  unfold gexRequest; simp only; split <;> simp
+
+private theorem gexGroup_eff (c : Env) (st : GexSt) (m : Bytes) (x : Nat) :
+    (gexGroup c st m x).eff = [] ∨ ∃ b, (gexGroup c st m x).eff = [.send b, .expect [33]] := by
+  unfold gexGroup; simp only; split
+  · exact Or.inl rfl
+  · exact Or.inr ⟨_, rfl⟩
+
+private theorem gexReply_eff (c : Env) (st : GexSt) (m : Bytes) :
+    (gexReply c st m).eff = [] ∨ (∃ a k h hk sg, (gexReply c st m).eff = [.hashed a, .setKH k h, .verifyKey hk sg, .activate]) ∨
+      (∃ a k h hk sg, (gexReply c st m).eff = [.hashed a, .setKH k h, .verifyKey hk sg]) := by
+  unfold gexReply; simp only
+  split
+  · exact Or.inl rfl
+  · split
+    · split
+      · exact Or.inl rfl
+      · split
+        · exact Or.inr (Or.inl ⟨_, _, _, _, _, rfl⟩)
+        · exact Or.inr (Or.inr ⟨_, _, _, _, _, rfl⟩)
+    · exact Or.inl rfl
+
+/-- a client step that reaches NEWKEYS has verified — for every engine, from every state the
+    run loop can be in (so: in the first exchange and in every re-exchange alike) -/
+theorem step_completion_verified (c : Env) (en : Engine) (s : Sess) (pkt : Nat × Bytes × Nat)
+    (hc : c.serverMode = false) (hexp : ClientExpect s)
+    (h : Effect.activate ∈ stepEff c en s pkt) : Verified c (stepEff c en s pkt) := by
+  unfold stepEff at h ⊢
+  by_cases hd : s.dead.isSome = true
+  · simp [hd] at h
+  by_cases he : s.expected = []
+  · simp [hd, he] at h
+  by_cases hin : pkt.1 ∉ s.expected
+  · simp [hd, he, hin] at h
+  by_cases hr : pkt.1 < 30 ∨ pkt.1 > 41
+  · simp [hd, he, hin, hr] at h
+  simp only [hd, he, hin, hr, if_false] at h ⊢
+  have hin' : pkt.1 ∈ s.expected := by simpa using hin
+  have ht := hexp _ hin'
+  cases en with
+| grp g =>
+  cases hst : s.st with
+  | grp gs =>
+    simp only [hst] at h ⊢
+    simp only [Engine.next, mapRes_eff, grpNext, hc] at h ⊢
+    by_cases h31 : pkt.1 = 31
+    · simp only [h31] at h ⊢
+      simp only [Bool.false_eq_true, false_and, if_false, not_false_eq_true, true_and, if_true] at h ⊢
+      exact grp_completion_verified c g gs _ h
+    · simp [h31] at h
+  | gex _ => simp only [hst] at h; simp [Engine.next] at h
+  | ec _ => simp only [hst] at h; simp [Engine.next] at h
+| gex =>
+  cases hst : s.st with
+  | gex gs =>
+    simp only [hst] at h ⊢
+    simp only [Engine.next, mapRes_eff, gexNext] at h ⊢
+    rcases ht with h31 | h33 | h21
+    · simp only [h31] at h ⊢
+      simp only [show (31 : Nat) ≠ 34 by decide, if_false, if_true] at h
+      rcases gexGroup_eff c gs pkt.2.1 pkt.2.2 with e | ⟨b, e⟩ <;> rw [e] at h <;> simp at h
+    · simp only [h33] at h ⊢
+      simp only [show (33 : Nat) ≠ 34 by decide, show (33 : Nat) ≠ 31 by decide,
+        show (33 : Nat) ≠ 32 by decide, if_false, if_true] at h ⊢
+      exact gex_completion_verified c gs _ h
+    · simp [h21] at h
+  | grp _ => simp only [hst] at h; simp [Engine.next] at h
+  | ec _ => simp only [hst] at h; simp [Engine.next] at h
+| nist cv =>
+  cases hst : s.st with
+  | ec es =>
+    simp only [hst] at h ⊢
+    simp only [Engine.next, mapRes_eff, ecNext, hc] at h ⊢
+    by_cases h31 : pkt.1 = 31
+    · simp only [h31] at h ⊢
+      simp only [Bool.false_eq_true, false_and, if_false, not_false_eq_true, true_and, if_true] at h ⊢
+      exact ec_completion_verified c cv es _ h
+    · simp [h31] at h
+  | grp _ => simp only [hst] at h; simp [Engine.next] at h
+  | gex _ => simp only [hst] at h; simp [Engine.next] at h
+| c25519 cv =>
+  cases hst : s.st with
+  | ec es =>
+    simp only [hst] at h ⊢
+    simp only [Engine.next, mapRes_eff, cvNext, hc] at h ⊢
+    by_cases h31 : pkt.1 = 31
+    · simp only [h31] at h ⊢
+      simp only [Bool.false_eq_true, false_and, if_false, not_false_eq_true, true_and, if_true] at h ⊢
+      exact cv_completion_verified c cv es _ h
+    · simp [h31] at h
+  | grp _ => simp only [hst] at h; simp [Engine.next] at h
+  | gex _ => simp only [hst] at h; simp [Engine.next] at h
+
+
+private theorem grpReply_eff (c : Env) (g : Group) (st : GrpSt) (m : Bytes) :
+    ((grpReply c g st m).eff = [] ∧ ∃ e, (grpReply c g st m).out = .error e) ∨
+    (∃ a k h hk sg, (grpReply c g st m).eff = [.hashed a, .setKH k h, .verifyKey hk sg, .activate]) ∨
+    (∃ e, (grpReply c g st m).out = .error e) := by
+  unfold grpReply; simp only
+  split
+  · exact Or.inl ⟨rfl, _, rfl⟩
+  · split
+    · exact Or.inr (Or.inl ⟨_, _, _, _, _, rfl⟩)
+    · exact Or.inr (Or.inr ⟨_, rfl⟩)
+
+private theorem ecReply_eff (c : Env) (cv : Curve) (st : EcSt) (m : Bytes) :
+    (∃ a k h hk sg, (ecReply c cv st m).eff = [.hashed a, .setKH k h, .verifyKey hk sg, .activate]) ∨
+    (∃ e, (ecReply c cv st m).out = .error e) := by
+  unfold ecReply; simp only
+  split
+  · exact Or.inr ⟨_, rfl⟩
+  · split
+    · exact Or.inr ⟨_, rfl⟩
+    · split
+      · exact Or.inr ⟨_, rfl⟩
+      · split
+        · exact Or.inl ⟨_, _, _, _, _, rfl⟩
+        · exact Or.inr ⟨_, rfl⟩
+
+private theorem cvReply_eff (c : Env) (cv : Curve) (st : EcSt) (m : Bytes) :
+    (∃ a k h hk sg, (cvReply c cv st m).eff = [.hashed a, .setKH k h, .verifyKey hk sg, .activate]) ∨
+    (∃ e, (cvReply c cv st m).out = .error e) := by
+  unfold cvReply; simp only
+  split
+  · exact Or.inr ⟨_, rfl⟩
+  · split
+    · exact Or.inr ⟨_, rfl⟩
+    · split
+      · exact Or.inl ⟨_, _, _, _, _, rfl⟩
+      · exact Or.inr ⟨_, rfl⟩
+
+private theorem gexReply_ok_eff (c : Env) (st : GexSt) (m : Bytes) :
+    (∃ a k h hk sg, (gexReply c st m).eff = [.hashed a, .setKH k h, .verifyKey hk sg, .activate]) ∨
+    (∃ e, (gexReply c st m).out = .error e) := by
+  unfold gexReply; simp only
+  split
+  · exact Or.inr ⟨_, rfl⟩
+  · split
+    · split
+      · exact Or.inr ⟨_, rfl⟩
+      · split
+        · exact Or.inl ⟨_, _, _, _, _, rfl⟩
+        · exact Or.inr ⟨_, rfl⟩
+    · exact Or.inr ⟨_, rfl⟩
+
+private theorem gexGroup_ok_eff (c : Env) (st : GexSt) (m : Bytes) (x : Nat) :
+    (∃ b, (gexGroup c st m x).eff = [.send b, .expect [33]]) ∨ (∃ e, (gexGroup c st m x).out = .error e) := by
+  unfold gexGroup; simp only; split
+  · exact Or.inr ⟨_, rfl⟩
+  · exact Or.inl ⟨_, rfl⟩
+
+private theorem mapRes_out_ok {α β : Type} (f : α → β) (r : Res α) (b : β) (h : (mapRes f r).out = .ok b) :
+    ∃ a, r.out = .ok a := by
+  unfold mapRes at h
+  cases hr : r.out with
+  | ok a => exact ⟨a, rfl⟩
+  | error e => rw [hr] at h; cases h
+
+/-- on a client, a successful engine step for a packet of type 31 or 33 leaves the transport
+    waiting for 33 or for NEWKEYS — never for a server-side message type -/
+private theorem client_step_expected (c : Env) (en : Engine) (st st' : ESt) (t : Nat) (m : Bytes) (x : Nat)
+    (hc : c.serverMode = false) (ht : t = 31 ∨ t = 33)
+    (hok : (en.next c st t m x).out = .ok st') :
+    ∀ t' ∈ expectedAfter [] (en.next c st t m x).eff, t' = 31 ∨ t' = 33 ∨ t' = 21 := by
+  cases en with
+  | grp g =>
+    cases st with
+    | grp gs =>
+      simp only [Engine.next, grpNext, hc] at hok ⊢
+      by_cases h31 : t = 31
+      · simp only [h31, Bool.false_eq_true, false_and, if_false, not_false_eq_true, true_and, if_true] at hok ⊢
+        obtain ⟨a, ha⟩ := mapRes_out_ok _ _ _ hok
+        rcases grpReply_eff c g gs m with ⟨_, e, he⟩ | ⟨a', k, h, hk, sg, e⟩ | ⟨e, he⟩
+        · rw [he] at ha; cases ha
+        · rw [mapRes_eff, e]; simp [expectedAfter]
+        · rw [he] at ha; cases ha
+      · simp [h31, mapRes] at hok
+    | gex _ => simp [Engine.next] at hok
+    | ec _ => simp [Engine.next] at hok
+  | gex =>
+    cases st with
+    | gex gs =>
+      simp only [Engine.next, gexNext] at hok ⊢
+      rcases ht with h31 | h33
+      · simp only [h31, show (31 : Nat) ≠ 34 by decide, if_false, if_true] at hok ⊢
+        obtain ⟨a, ha⟩ := mapRes_out_ok _ _ _ hok
+        rcases gexGroup_ok_eff c gs m x with ⟨b, e⟩ | ⟨e, he⟩
+        · rw [mapRes_eff, e]; simp [expectedAfter]
+        · rw [he] at ha; cases ha
+      · simp only [h33, show (33 : Nat) ≠ 34 by decide, show (33 : Nat) ≠ 31 by decide,
+          show (33 : Nat) ≠ 32 by decide, if_false, if_true] at hok ⊢
+        obtain ⟨a, ha⟩ := mapRes_out_ok _ _ _ hok
+        rcases gexReply_ok_eff c gs m with ⟨a', k, h, hk, sg, e⟩ | ⟨e, he⟩
+        · rw [mapRes_eff, e]; simp [expectedAfter]
+        · rw [he] at ha; cases ha
+    | grp _ => simp [Engine.next] at hok
+    | ec _ => simp [Engine.next] at hok
+  | nist cv =>
+    cases st with
+    | ec es =>
+      simp only [Engine.next, ecNext, hc] at hok ⊢
+      by_cases h31 : t = 31
+      · simp only [h31, Bool.false_eq_true, false_and, if_false, not_false_eq_true, true_and, if_true] at hok ⊢
+        obtain ⟨a, ha⟩ := mapRes_out_ok _ _ _ hok
+        rcases ecReply_eff c cv es m with ⟨a', k, h, hk, sg, e⟩ | ⟨e, he⟩
+        · rw [mapRes_eff, e]; simp [expectedAfter]
+        · rw [he] at ha; cases ha
+      · simp [h31, mapRes] at hok
+    | grp _ => simp [Engine.next] at hok
+    | gex _ => simp [Engine.next] at hok
+  | c25519 cv =>
+    cases st with
+    | ec es =>
+      simp only [Engine.next, cvNext, hc] at hok ⊢
+      by_cases h31 : t = 31
+      · simp only [h31, Bool.false_eq_true, false_and, if_false, not_false_eq_true, true_and, if_true] at hok ⊢
+        obtain ⟨a, ha⟩ := mapRes_out_ok _ _ _ hok
+        rcases cvReply_eff c cv es m with ⟨a', k, h, hk, sg, e⟩ | ⟨e, he⟩
+        · rw [mapRes_eff, e]; simp [expectedAfter]
+        · rw [he] at ha; cases ha
+      · simp [h31, mapRes] at hok
+    | grp _ => simp [Engine.next] at hok
+    | gex _ => simp [Engine.next] at hok
+
+theorem clientExpect_feed (c : Env) (en : Engine) (s : Sess) (pkt : Nat × Bytes × Nat)
+    (hc : c.serverMode = false) (h : ClientExpect s) : ClientExpect (Sess.feed c en s pkt) := by
+  unfold Sess.feed
+  by_cases hd : s.dead.isSome = true
+  · simpa [hd] using h
+  by_cases he : s.expected = []
+  · simpa [hd, he] using h
+  by_cases hin : pkt.1 ∉ s.expected
+  · simp only [hd, he, hin, if_true, if_false, Bool.false_eq_true]; exact h
+  by_cases hr : pkt.1 < 30 ∨ pkt.1 > 41
+  · simp only [hd, he, hin, hr, if_true, if_false, Bool.false_eq_true]
+    intro t ht; cases ht
+  simp only [hd, he, hin, hr, if_false, Bool.false_eq_true]
+  have hin' : pkt.1 ∈ s.expected := by simpa using hin
+  have ht : pkt.1 = 31 ∨ pkt.1 = 33 := by
+    rcases h _ hin' with a | a | a
+    · exact Or.inl a
+    · exact Or.inr a
+    · omega
+  cases hout : (en.next c s.st pkt.1 pkt.2.1 pkt.2.2).out with
+  | ok st' =>
+    simp only
+    exact client_step_expected c en s.st st' pkt.1 pkt.2.1 pkt.2.2 hc ht hout
+  | error e =>
+    simp only
+    intro t ht'; cases ht'
+
+theorem begin_clientExpect (c : Env) (en : Engine) (x : Nat) (hc : c.serverMode = false) :
+    ClientExpect (Sess.begin c en x) := by
+  cases en <;> simp [Sess.begin, Engine.start, grpStart, gexStart, ecStart, cvStart, hc, expectedAfter, ClientExpect]
+
+/-- one exchange, any packets: every step that reaches NEWKEYS on the client has verified the
+    signature over that exchange's H under the key shown in that exchange -/
+theorem exchange_completions_verified (c : Env) (en : Engine) (hc : c.serverMode = false)
+    (pkts : List (Nat × Bytes × Nat)) (s : Sess) (hs : ClientExpect s) :
+    ∀ eff ∈ stepEffs c en s pkts, Effect.activate ∈ eff → Verified c eff := by
+  induction pkts generalizing s with
+  | nil => intro eff h; cases h
+  | cons p ps ih =>
+    intro eff h hact
+    simp only [stepEffs, List.mem_cons] at h
+    rcases h with rfl | h
+    · exact step_completion_verified c en s p hc hs hact
+    · exact ih (Sess.feed c en s p) (clientExpect_feed c en s p hc hs) eff h hact
+
+/-- the whole connection: the first exchange and any number of re-exchanges (each starts a fresh
+    engine, with its own randomness and packets): EVERY exchange that completes on the client has
+    `verify(host key shown, H_i, sig_i)` — not only the first one -/
+theorem every_exchange_verified (c : Env) (hc : c.serverMode = false)
+    (exchanges : List (Engine × Nat × List (Nat × Bytes × Nat))) :
+    ∀ ex ∈ exchanges, ∀ eff ∈ stepEffs c ex.1 (Sess.begin c ex.1 ex.2.1) ex.2.2,
+      Effect.activate ∈ eff → Verified c eff := by
+  intro ex _ eff h hact
+  exact exchange_completions_verified c ex.1 hc ex.2.2 _ (begin_clientExpect c ex.1 ex.2.1 hc) eff h hact
+
 /-! ## the session identifier is the first exchange hash, for any number of exchanges -/
 
 /-- `_set_K_H` never changes a session id that is set -/
